@@ -3,8 +3,8 @@ package main
 // C13 — the metadata store is a deterministic compare-and-set register map.
 
 import (
-	"go/token"
 	"go/constant"
+	"go/token"
 	"go/types"
 	"strconv"
 	"strings"
@@ -19,7 +19,7 @@ func init() {
 const kvPath = modPath + "/storage/kv"
 
 func checkC13(w *World, r *Report) {
-	r.Decides = "C13 is decided in its structural part only: (a) in the metadata state machine's Update the map writes are reachable only over 'key not stored' or 'stored.Ver == supplied.Ver'; the mismatch edge reports ResultCodeVersionMismatch with the marshalled stored pair and writes nothing; (b) the version given to a stored pair is the log entry's index; (c) the client maps the mismatch code to an error in Set and Delete and returns proposal errors; (d) no clock/random/environment value or goroutine reaches the map writes or results; (e) snapshot symmetry: MarshalJSON and UnmarshalJSON use the same map field, recover decodes into the store prepare marshals, and recovery replaces the map; (f) every MapStore method that touches the map holds the mutex until it returns (write lock for writers); (g) no lookup method writes the map, and the two directory listings decide membership by the same component-wise prefix test (sibling agreement)."
+	r.Decides = "C13 is decided in its structural part only: (a) in the metadata state machine's Update the map writes are reachable only over 'key not stored' or 'stored.Ver == supplied.Ver'; the mismatch edge reports ResultCodeVersionMismatch with the marshalled stored pair and writes nothing; (b) the version given to a stored pair is the log entry's index; (c) the client maps the mismatch code to an error in Set and Delete and returns proposal errors; (d) no clock/random/environment value or goroutine reaches the map writes or results; (e) snapshot symmetry: MarshalJSON and UnmarshalJSON use the same map field, recover decodes into the store prepare marshals, and recovery replaces the map; (f) every MapStore method that touches the map holds the mutex until it returns (write lock for writers); (g) no lookup method writes the map, and the two directory listings decide membership by the same component-wise prefix test (sibling agreement). (h) the map store's Set and Delete are unconditional; (i) every entry is decoded into a value of its own and changes only the key it names."
 	r.NotDecided = []string{"glob semantics of path.Match and the directory-listing helpers", "JSON round trip of arbitrary strings", "that log indices are unique and increasing (Raft)"}
 	r.Assume = []string{"dragonboat applies entries in index order on every replica"}
 	sp := w.SSAPkg("storage/kv")
@@ -52,6 +52,7 @@ func checkC13(w *World, r *Report) {
 	c13Locks(w, r)
 	c13Listings(w, r)
 	c13StoreOps(w, r, "C13.h", "h-store-operations-unconditional")
+	c13UpdateScope(w, r, "C13.i", "i-update-own-key-fresh-decode")
 }
 
 func c13Gate(w *World, r *Report, up *ssa.Function, idA, idB string) {
@@ -887,4 +888,67 @@ func isExplicitUnlock(in ssa.Instruction) bool {
 	}
 	n := CalleeName(c)
 	return strings.HasPrefix(n, "(*sync.") && strings.HasSuffix(n, "Unlock")
+}
+
+// c13UpdateScope: an entry of the metadata log is decoded into a value of its own and changes the
+// key it names, nothing else.
+func c13UpdateScope(w *World, r *Report, id, slug string) {
+	ob := r.Ob(id, slug, "in the metadata state machine's Update: the value every entry is decoded into (json.Unmarshal) is allocated inside the entry loop; every MapStore Set / Delete reachable from Update is given the key of the decoded update (…KVPair.Key), and none sits in a loop other than the entry loop", "a decode target reused across the entries of one apply call keeps what the previous entry left in fields the next one omits (a version 0 inherits the previous version: two create-if-absent writes in one batch both succeed); an update that also deletes keys nested under its own erases the id sequence when a table named 'sys' is deleted")
+	up := metaUpdate(w)
+	if up == nil {
+		ob.Undecided("anchor", "metadata Update not found")
+		return
+	}
+	// the entry loop
+	var entryLoop *sliceLoop
+	for _, sl := range sliceLoops(up) {
+		if st, ok := sl.Slice.Type().Underlying().(*types.Slice); ok && typeIs(st.Elem(), smPath, "Entry") {
+			entryLoop = sl
+		}
+	}
+	if entryLoop == nil {
+		ob.Undecided("shape", "no loop over the entries in the metadata Update")
+		return
+	}
+	scope := map[*ssa.Function]bool{up: true}
+	eachInstr(up, func(in ssa.Instruction) {
+		if c := plainCall(in); c != nil {
+			if cal := StaticCallee(c); cal != nil && cal.Blocks != nil && cal.Pkg == up.Pkg {
+				scope[cal] = true
+			}
+		}
+	})
+	for fn := range scope {
+		eachInstr(fn, func(in ssa.Instruction) {
+			c := plainCall(in)
+			if c == nil {
+				return
+			}
+			n := CalleeName(c)
+			if (n == "encoding/json.Unmarshal" || strings.HasSuffix(n, ".Unmarshal")) && len(c.Args) == 2 && fn == up {
+				t := c.Args[1]
+				for d := 0; d < 3; d++ {
+					if mi, ok := t.(*ssa.MakeInterface); ok {
+						t = mi.X
+					}
+				}
+				ob.Site(in.Pos(), "entry decoded into "+Expr(t))
+				al, ok := t.(*ssa.Alloc)
+				if !ok || al.Parent() != up || !entryLoop.Body[al.Block()] {
+					ob.Violate("decode-target-reused", in.Pos(), "the entries of one apply call are decoded into `"+Expr(t)+"`, a value that is not allocated per entry: fields an entry omits keep what the previous entry left there")
+				}
+			}
+			if strings.HasSuffix(n, "kv.MapStore).Set") || strings.HasSuffix(n, "kv.MapStore).Delete") {
+				k := Expr(c.Args[1])
+				ob.Site(in.Pos(), shortName(n)+" under "+k)
+				if !strings.HasSuffix(k, ".KVPair.Key") && !strings.HasSuffix(k, ".Key") {
+					ob.Violate("update-touches-other-key", in.Pos(), "the metadata Update changes `"+k+"`, not the key its entry names")
+				}
+				if h, _ := loopOf(in.Block()); h != nil && (fn != up || h != entryLoop.Head) {
+					ob.Violate("update-touches-other-key", in.Pos(), "the metadata Update changes the store in a loop of its own: one entry changes more than the key it names")
+				}
+			}
+		})
+	}
+	ob.NeedFloor(3)
 }
